@@ -807,6 +807,127 @@ Section PollProofs.
     intro E. rewrite E in Hin. contradiction.
   Qed.
 
+  (* ---------------------------------------------------------------- bounded in iterations *)
+  Definition plen (s : pstate) : nat := length (pending (tq (io s))).
+
+  Lemma poll_round_len : forall (t : term A) k,
+    Inv (tq t) -> (N.of_nat (total_len (chunks (tq t))) <= usize_max)%N ->
+    exists t', poll_round t (KAccept k) = Ok t'
+      /\ length (pending (tq t')) <= length (pending (tq t))
+      /\ (sent t' <> sent t -> length (pending (tq t')) < length (pending (tq t))).
+  Proof.
+    intros t k HI HB. cbn [poll_round].
+    destruct (is_empty (tq t)); [exists t; split; auto; split; [lia|congruence]|].
+    pose proof (offset_le_total (tq t) (inv_off _ HI)) as Hot.
+    unfold consume_with. rewrite (as_slice_ok (tq t) (inv_off _ HI)). cbn [bind].
+    set (sl := front_slice (tq t)) in *. set (size := consumer k true sl).
+    assert (Hsize : (size <= N.of_nat (length sl))%N) by (unfold size, consumer; lia).
+    destruct (consume_take (tq t) size HI) as (q' & E & Ht); [lia|].
+    rewrite E. cbn [bind].
+    destruct (take_sound (tq t) size q' HI Ht) as (_ & _ & _ & Hp).
+    eexists. split; [reflexivity|]. cbn [tq sent]. rewrite Hp. fold sl. unfold taken.
+    replace (N.min size (N.of_nat (length sl))) with size by lia.
+    rewrite app_length, firstn_length. split; lia.
+  Qed.
+
+  Lemma round_body_len : forall (s : pstate) r nodelay s' sp, QI s ->
+    round_body s r nodelay = inr (s', sp) ->
+    plen s' <= plen s /\ (sp = true -> plen s' < plen s).
+  Proof.
+    intros s r nodelay s' sp [HI HB]. unfold round_body.
+    set (s0 := arrive_all s (r_before r)).
+    assert (Hio0 : io s0 = io s) by apply (Same_arrive_all (r_before r) s).
+    destruct (negb _ && nodelay && events_empty s); [discriminate|].
+    match goal with |- context [write_step s0 r ?w] =>
+      assert (HW : match write_step s0 r w with
+                   | inl s1 => plen s1 <= plen s /\ (sent (io s1) <> sent (io s0) -> plen s1 < plen s)
+                   | inr _ => True end) end.
+    { unfold write_step, plen. destruct (_ && _); [|rewrite Hio0; split; [lia|congruence]].
+      destruct (r_wr_err r || hup s0); [exact I|].
+      destruct (r_accept r) as [k|]; [|rewrite Hio0; split; [lia|congruence]].
+      rewrite <- Hio0 in HI, HB.
+      destruct (poll_round_len (io s0) k HI HB) as (t' & E & H1 & H2). rewrite E. cbn [upd_io io].
+      rewrite <- Hio0. auto. }
+    match goal with |- context [write_step s0 r ?w] => destruct (write_step s0 r w) as [s1|e] end; [|discriminate].
+    match goal with |- context [reads s1 r ?a ?b ?c] =>
+      pose proof (Same_reads s1 r a b c) as HR; destruct (reads s1 r a b c) as [x|s7] end; [discriminate|].
+    intro E. inversion E; subst. destruct HR as (_ & _ & _ & Hio). unfold plen in *. rewrite Hio.
+    destruct HW as [H1 H2]. split; auto. intro Hsp. apply H2. apply negb_true_iff in Hsp.
+    now apply Nat.eqb_neq in Hsp.
+  Qed.
+
+  Lemma round_body_events : forall (s : pstate) r nodelay s' sp,
+    round_body s r nodelay = inr (s', sp) -> events s <> [] -> events s' <> [].
+  Proof.
+    intros s r nodelay s' sp E He. pose proof (Ext_round_body s r nodelay) as Hx. rewrite E in Hx.
+    destruct Hx as [add Ha]. rewrite Ha. destruct (events s); [congruence|discriminate].
+  Qed.
+
+  (* With an event queued, the loop leaves at the first iteration that sends nothing and every
+     other iteration sends at least one byte: the poll is over within |pending| + 1 iterations
+     (iterations cut short by EINTR, which need a signal each, are not counted).  It does not go
+     round on a tty that is reported writable and accepts nothing. *)
+  Theorem returns_within : forall sched finite first (s : pstate),
+    QI s -> events s <> [] -> Forall (fun r => r_eintr r = false) sched ->
+    plen s < length sched ->
+    fst (fst (poll_loop finite first s sched)) <> PMore.
+  Proof.
+    induction sched as [|r rest IH]; intros finite first s HQ He Hne Hlen; [cbn in Hlen; lia|].
+    cbn [poll_loop].
+    destruct (queue_empty s && _); [unfold pop_ret; destruct (events s); cbn; discriminate|].
+    destruct (finite && r_expired r && negb first); [unfold pop_ret; destruct (events s); cbn; discriminate|].
+    inversion Hne as [|? ? Hr Hrest]; subst. rewrite Hr.
+    pose proof (Out_round_body s r (negb finite) HQ) as Ho.
+    destruct (round_body s r (negb finite)) as [[res s']|[s' sp]] eqn:Er.
+    - cbn. intro Hx. subst res.
+      (* an iteration never ends the poll with "schedule exhausted" *)
+      revert Er. unfold round_body.
+      destruct (negb _ && negb finite && events_empty s); [discriminate|].
+      destruct (write_step _ _ _); [|discriminate]. unfold reads.
+      destruct (if sigpipe _ then sig_step _ else inl _); [|discriminate].
+      destruct (if (_ || hup _) then in_step _ _ else inl _); discriminate.
+    - destruct (round_body_len s r (negb finite) s' sp HQ Er) as [Hle Hlt].
+      pose proof (round_body_events s r (negb finite) s' sp Er He) as He'.
+      destruct sp.
+      + unfold events_empty. destruct (events s') eqn:Ee; [congruence|]. cbn [negb andb].
+        apply IH; auto; [apply (Out_QI _ _ Ho)|rewrite Ee; discriminate|].
+        specialize (Hlt eq_refl). cbn [length] in Hlen. lia.
+      + unfold events_empty, pop_ret. destruct (events s') eqn:Ee; [congruence|]. cbn. discriminate.
+  Qed.
+
+  (* "bounded time" for a wake request, in iterations: with a byte in the waker socket (or Wake
+     queued) a poll ends - with an event or an error, never asleep - within |pending| + 2
+     iterations not interrupted by EINTR *)
+  Theorem wake_returns_within : forall sched finite (s : pstate),
+    QI s -> Wk s -> Forall (fun r => r_eintr r = false) sched ->
+    plen s + 1 < length sched ->
+    let res := fst (fst (poll_loop finite true s sched)) in
+    res <> PMore /\ res <> PBlocked.
+  Proof.
+    intros sched finite s HQ HW Hne Hlen res. split; [|now apply poll_loop_not_blocked].
+    unfold res. destruct (events s) as [|e0 l0] eqn:Ee.
+    - (* the wake is still in the socket: the first iteration reads it *)
+      destruct HW as [Hp|Hin]; [|rewrite Ee in Hin; contradiction].
+      destruct sched as [|r rest]; [cbn in Hlen; lia|]. cbn [poll_loop].
+      unfold events_empty at 1. rewrite Ee. rewrite andb_false_r. rewrite andb_false_r.
+      inversion Hne as [|? ? Hr Hrest]; subst. rewrite Hr.
+      pose proof (Out_round_body s r (negb finite) HQ) as Ho.
+      destruct (round_body s r (negb finite)) as [[res1 s']|[s' sp]] eqn:Er.
+      + cbn. intro Hx. subst res1. revert Er. unfold round_body.
+        destruct (negb _ && negb finite && events_empty s); [discriminate|].
+        destruct (write_step _ _ _); [|discriminate]. unfold reads.
+        destruct (if sigpipe _ then sig_step _ else inl _); [|discriminate].
+        destruct (if (_ || hup _) then in_step _ _ else inl _); discriminate.
+      + pose proof (round_queues_wake s r (negb finite) s' sp (pipe_arrive_all_pos _ _ Hp) Er) as Hin.
+        destruct (round_body_len s r (negb finite) s' sp HQ Er) as [Hle _].
+        assert (He' : events s' <> []) by (intro Hx; rewrite Hx in Hin; contradiction).
+        unfold events_empty. destruct (events s') eqn:Ee'; [congruence|]. cbn [negb andb].
+        destruct sp; cbn [negb]; [|unfold pop_ret; rewrite Ee'; cbn; discriminate].
+        apply returns_within; auto; [apply (Out_QI _ _ Ho)|rewrite Ee'; discriminate|].
+        cbn [length] in Hlen. lia.
+    - apply returns_within; auto; [rewrite Ee; discriminate|lia].
+  Qed.
+
   (* ---------------------------------------------------------------- dispose *)
   Context (is_da : T -> bool) (closing : list A).
 
